@@ -338,7 +338,7 @@ func c17WSPair(kind string) (*wsPair, error) {
 		return a
 	}
 	var err error
-	ctx, cancel := context.WithTimeout(context.Background(), 5*time.Second)
+	ctx, cancel := context.WithTimeout(context.Background(), 2*time.Minute)
 	defer cancel()
 	if kind == "gorilla" {
 		old := websocket.DefaultDialer.NetDial
@@ -359,7 +359,7 @@ func c17WSPair(kind string) (*wsPair, error) {
 		if err != nil {
 			return nil, fmt.Errorf("upgrade: %v", err)
 		}
-	case <-time.After(5 * time.Second):
+	case <-time.After(2 * time.Minute):
 		return nil, fmt.Errorf("upgrade timed out")
 	}
 	return p, nil
@@ -457,8 +457,8 @@ func c17WSChunks(kind, dir string, shard, nshards int) vh.Unit {
 					select {
 					case r := <-ch:
 						return r.m, r.err
-					case <-time.After(4 * time.Second):
-						return nil, fmt.Errorf("the message never arrived (reader still blocked after 4 s)")
+					case <-time.After(90 * time.Second):
+						return nil, fmt.Errorf("the message never arrived (reader still blocked after 90 s)")
 					}
 				})
 			})
@@ -531,7 +531,7 @@ func c17Writers(bound int) vh.Unit {
 							return "ws-gorilla/writers-interleaved", fmt.Sprintf("reading message %d after three concurrent writers: %v (write sizes on the wire: %v)", i+1, r.err, writes)
 						}
 						seen[c17Norm(r.m)]++
-					case <-time.After(3 * time.Second):
+					case <-time.After(90 * time.Second):
 						return "ws-gorilla/writers-interleaved", fmt.Sprintf("message %d never arrived (write sizes on the wire: %v)", i+1, writes)
 					}
 				}
